@@ -134,8 +134,12 @@ def build_init(init, ctx):
 # ---------------------------------------------------------------------------
 # the interpreter
 class Machine:
-    def __init__(self, case, ctx, allow_queries=True):
+    def __init__(self, case, ctx, allow_queries=True, strict_queries=True):
         self.ctx = ctx
+        # strict_queries=False: a read-only step only has its answers compared; the views
+        # are compared again after the next edit (law edits_after_queries: what an edit does
+        # after read-only calls is a claim of its own, not hidden behind the purity check)
+        self.strict_queries = strict_queries
         self.uv = list(range(case.get("nv", 3)))
         self.ul = list("abcd"[:case.get("nl", 2)])
         self.allow_queries = allow_queries
@@ -233,6 +237,8 @@ class Machine:
             self.where = "after step %d: %s" % (n, self.trace[-1])
             if op in QUERY_OPS:
                 self.queried = True
+                if not self.strict_queries:
+                    continue
             elif op not in ("copy", "set_start"):
                 if self.queried:
                     self.ctx.label("edit-after-query")
@@ -460,6 +466,8 @@ class Machine:
 
     # -- read-only steps --------------------------------------------------
     def _pure(self, before, what):
+        if not self.strict_queries:
+            return
         after = snapshot(self.fsa)
         if after != before:
             self.ctx.fail("a read-only call changed a view", call=what,
@@ -529,16 +537,16 @@ class Machine:
             self.ctx.label("query-absent-label")
         self.ctx.label("word-accepted" if end is not None else "word-rejected")
         got = self.fsa.accepts(arg, **kw)
-        self.ctx.check(got is (end is not None), "accepts differs from the model", word=arg,
-                       start=v, got=repr(got), want=end is not None, trace=self.trace[-8:])
         try:
             res = ("end", self.fsa.follow_word(arg, **kw))
         except FSAException:
             res = ("rejected", None)
+        self._pure(before, self.trace[-1])
+        self.ctx.check(got is (end is not None), "accepts differs from the model", word=arg,
+                       start=v, got=repr(got), want=end is not None, trace=self.trace[-8:])
         want = ("end", end) if end is not None else ("rejected", None)
         self.ctx.check(res == want, "follow_word differs from the model", word=arg, start=v,
                        got=repr(res), want=repr(want), trace=self.trace[-8:])
-        self._pure(before, self.trace[-1])
 
     def op_q_prefix(self, a):
         if not self._start_ok():
@@ -570,8 +578,8 @@ class Machine:
         self._pure(before, self.trace[-1])
 
 
-def run_history(case, ctx, allow_queries=True):
-    mach = Machine(case, ctx, allow_queries=allow_queries)
+def run_history(case, ctx, allow_queries=True, strict_queries=True):
+    mach = Machine(case, ctx, allow_queries=allow_queries, strict_queries=strict_queries)
     try:
         mach.run(case["steps"])
     except Exception as e:
@@ -593,6 +601,10 @@ def body_history(case, ctx):
 
 def body_history_edits(case, ctx):
     run_history(case, ctx, allow_queries=False)
+
+
+def body_history_lenient(case, ctx):
+    run_history(case, ctx, allow_queries=True, strict_queries=False)
 
 
 def nt_history(labels):
@@ -659,8 +671,9 @@ def kbmag_rec(draw, fsa=True, max_states=6, max_names=4):
                       st.text(alphabet="abAB019_rxe", max_size=3),
                       st.integers(0, 5).map(lambda t: t == 0))
     names = draw(st.lists(st.one_of(st.sampled_from(["a", "A", "b", "B", "c", "r", "rec"]),
-                                    ident), max_size=max_names, unique=True))
-    n = draw(st.integers(1, max_states))
+                                    ident), unique=True, max_size=max_names,
+                          min_size=min(max_names, draw(st.sampled_from([0, 1, 2, 2, 3])))))
+    n = draw(st.sampled_from([1] + list(range(2, max_states + 1)) * 2))
     m = len(names)
     table = []
     for _ in range(n):
@@ -698,13 +711,14 @@ def kbmag_spec(draw, max_records=3, **kw):
         r = draw(kbmag_rec(fsa=is_fsa, **kw))
         r["name"] = names[j]
         recs.append(r)
-    style = draw(st.integers(0, 3))
+    style = draw(st.integers(0, 5))
     if style == 0:
         ws = [""]
     elif style == 1:
         ws = [" "]
     else:
-        ws = draw(st.lists(WS_ATOM, min_size=1, max_size=12))
+        ws = draw(st.lists(st.one_of(WS_ATOM, st.sampled_from(list(K.WS) + ["", "\n  "])),
+                           min_size=2, max_size=12))
     return dict(records=recs, ws=ws, lead=draw(WS_ATOM), tail=draw(WS_ATOM))
 
 
@@ -744,7 +758,8 @@ def history_case(draw, ops, max_steps=40):
     nv = draw(st.integers(2, 5))
     nl = draw(st.integers(1, 4))
     init = draw(init_case(nv, nl))
-    steps = draw(st.lists(step_strategy(ops), max_size=max_steps))
+    lo = draw(st.sampled_from([0, 2, 4, 8, 16]))
+    steps = draw(st.lists(step_strategy(ops), min_size=lo, max_size=max_steps))
     return dict(nv=nv, nl=nl, init=init, steps=steps)
 
 
@@ -951,6 +966,12 @@ _machine_edits = Law("views_machine_edits", history_case(EDIT_WEIGHTED), body_hi
                      nt_history, quick=220, thorough=1500, shards=(2, 8))
 _machine_all = Law("views_machine_queries", history_case(EDIT_WEIGHTED + QUERY_WEIGHTED),
                    body_history, nt_history, quick=220, thorough=1500, shards=(3, 8))
+_after = Law("edits_after_queries",
+             history_case(["add_edge", "add_elist", "delete_vertex", "delete_vertices",
+                           "recurrent", "rlp", "multiple", "rename", "copy"] +
+                          ["q_pairs", "q_pairs", "q_nbrs", "q_word", "q_enum"] * 2, max_steps=16),
+             body_history_lenient, lambda l: "edit-after-query" in l and "len>=3" in l,
+             quick=200, thorough=1500, shards=(2, 6))
 _exh = Law("bounded_exhaustive_histories", None, body_history, nt_history,
            exhaustive=exhaustive_histories)
 _exh.ex_shards = {"quick": 6, "thorough": 16}
@@ -963,4 +984,4 @@ _ath = Law("kbmag_atheris_campaign", None, body_atheris, lambda l: "executed" in
            exhaustive=exhaustive_atheris)
 _ath.ex_shards = {"quick": 1, "thorough": 4}
 
-LAWS = [_machine_edits, _machine_all, _exh, _kb, _bi, _ath]
+LAWS = [_machine_edits, _machine_all, _after, _exh, _kb, _bi, _ath]
